@@ -867,6 +867,8 @@ class Interp:
             return self.p.branch(t.t) if is_sym(t) else bool(t)
         if isinstance(v, SymArray):
             raise OutsideSubset('truth value of an array')
+        if getattr(type(v), 'opaque_standin', False) and getattr(type(v), 'unknown_kind', None):
+            raise OutsideSubset(f'truth value of an opaque sub-tree of unknown kind is asked ({v!r})')
         try:
             return bool(v)
         except SymbolicTruthError:
